@@ -1420,6 +1420,9 @@ class GeoboxTiles:
         return range(y1, y2 + 1), range(x1, x2 + 1)
 
     def _tiles_from_pix_bbox(self, bbox: BoundingBox) -> Iterator[Tuple[int, int]]:
+        NY, NX = self._gbox.shape.yx
+        if bbox.right <= 0 or bbox.top <= 0 or bbox.left >= NX or bbox.bottom >= NY:
+            return  # wholly outside of the image
         yy, xx = self.range_from_bbox(bbox)
         yield from itertools.product(yy, xx)
 
